@@ -7,3 +7,17 @@ func LenAny(x any) int { return reflect.ValueOf(x).Len() }
 func SwapAny(x any, i, j int) {
 	reflect.Swapper(x)(i, j)
 }
+
+// AssignIfMatches: if err's dynamic type is assignable to *target's element type, store it.
+func AssignIfMatches(err error, target any) bool {
+	val := reflect.ValueOf(target)
+	if val.Kind() != reflect.Ptr || val.IsNil() {
+		panic("errors: target must be a non-nil pointer")
+	}
+	tt := val.Type().Elem()
+	if reflect.TypeOf(err).AssignableTo(tt) {
+		val.Elem().Set(reflect.ValueOf(err))
+		return true
+	}
+	return false
+}
